@@ -23,7 +23,11 @@ Ord321 == <<2, 1, 0>>
 Ord1234 == <<0, 1, 2, 3>>
 Ord3142 == <<2, 0, 3, 1>>
 Ord4321 == <<3, 2, 1, 0>>
-Tag(g) == LET s == IF g = {} THEN 0 ELSE CHOOSE m \in g : \A x \in g : x <= m IN (Cardinality(g) * 7 + s * 13 + Seed) % Sample
+(* sampling by the rank of the function among all functions (its truth table read as a binary number): every residue class *)
+(* modulo Sample is inhabited, whatever the seed                                                                         *)
+Tag(g) == LET RECURSIVE Rank(_)
+              Rank(h) == IF h = {} THEN 0 ELSE LET a == CHOOSE x \in h : TRUE IN 2 ^ a + Rank(h \ {a})
+          IN ((Rank(g) % 251) * 13 + (Rank(g) \div 251) + Seed) % Sample
 Reward == Ord[NV]
 Cands == {Ord[i] : i \in 1 .. (NV - 1)}
 QLists == UNION {{s \in [1 .. n -> Cands] : \A i, j \in 1 .. n : i # j => s[i] # s[j]} : n \in 1 .. (NV - 1)}
